@@ -493,7 +493,7 @@ Proof.
     [intros H; inversion H; constructor|].
   cbn [a_mul a_div exact bind].
   destruct (Qcltb 0 (fr_amount cad * fr_amount other)); [intros H; inversion H; constructor|].
-  destruct (Qceqb (fr_amount other) 0); cbn [bind]; [discriminate|].
+  destruct (Qceqb (fr_amount other) 0); cbn [bind]; [intros H; inversion H; constructor|].
   destruct (fx_tx _ _ _ _ _ _ _ _) as [x|t] eqn:Ef; intros H; inversion H; subst; constructor; [|constructor].
   apply (fx_is_fx _ _ _ _ _ _ _ _ _ Ef).
 Qed.
